@@ -31,6 +31,8 @@ def attribute(run, line, verdict):
             return "C13"
         if k in ("Prim", "Run", "Obs"):
             return "C11"
+        if k == "StateObs":
+            return "C12+C11"      # a blocked unit terminated before it was resumed (its cancellation is honoured at the resume)
         if k in ("Start", "Create", "CreateRet", "Finish"):
             # a second start after revive belongs to the life cycle
             revived = {e["u"] for e in upto if e.get("e") == "Revive"}
